@@ -1,9 +1,15 @@
 import Proofs.ConfModel
+import Proofs.CgaObj
+import Proofs.WedgeList
 
-/-! # C14 — CGA object layer: the translation operator (algebraic core)
+/-! # C14 — CGA object layer
 
-PARTIAL: dilation/rotation/transversion (exponentials), rounds and flats through points, `dim`, and operator application
-are decided by evaluation on the implementation for CGA(2), CGA(3), CGA(4). -/
+Operators from the defining relations of the conformal model (any ℚ-algebra: every base dimension and signature at once),
+objects through points in the canonical model (any commutative ring, any dimension).
+
+PARTIAL: the exponentials enter as `a + b E0` with `a² − b² = 1` (dilation; that the truncated series of `exp(t E0)` is close to
+`cosh t + sinh t E0` is C16 + libm) and as "any polynomial in B" (rotation); `R ~R = 1` for the rotation rotor is analytic and
+evaluated on the implementation; `dim` and the class bookkeeping of `__call__` are evaluated on the implementation. -/
 
 namespace C14
 open Conf
@@ -21,5 +27,77 @@ theorem translation_fixes_einf (r : Rel2 x a ep en qx qa b) :
 /-- an operator applied to an object acts by the versor product, and versor products compose -/
 theorem versor_product_composes (R1 R2 R1r R2r M : A) : R2 * (R1 * M * R1r) * R2r = (R2 * R1) * M * (R1r * R2r) :=
   Intertwine.apply_rotor_compose R1 R2 R1r R2r M
+
+/-! ## dilation -/
+
+/-- `dilation(s)`: the versor `a + b E0` (`a² − b² = 1`; in the code `a = cosh t`, `b = sinh t`, `t = −ln(s)/2`) is a unit rotor … -/
+theorem dilation_unit (r : Rel x ep en qx) (a' b' : ℚ) (h : (a' + b') * (a' - b') = 1) : dil a' b' ep en * dilRev a' b' ep en = 1 :=
+  dil_is_unit r a' b' h
+/-- … that maps the point of `x` to (a multiple of) the point of `s·x`, `s = (a − b)²` -/
+theorem dilation_scales_point (r : Rel x ep en qx) (a' b' : ℚ) (h : (a' + b') * (a' - b') = 1) :
+    dil a' b' ep en * up x ep en qx * dilRev a' b' ep en
+      = ((a' + b') * (a' + b')) • up (((a' - b') * (a' - b')) • x) ep en (((a' - b') * (a' - b')) * ((a' - b') * (a' - b')) * qx) :=
+  dil_up r a' b' h
+/-- non-vacuity: `s = 1/4` is `a = 5/4`, `b = 3/4` -/
+example : ((5/4 : ℚ) + 3/4) * (5/4 - 3/4) = 1 ∧ ((5/4 : ℚ) - 3/4) * (5/4 - 3/4) = 1/4 := by norm_num
+
+/-! ## rotation -/
+
+/-- a base-space bivector commutes with the two added basis vectors -/
+theorem base_bivector_commutes_with_added {y : A} {qy : ℚ} (r : Rel x ep en qx) (ry : Rel y ep en qy) :
+    Commute (x * y) ep ∧ Commute (x * y) en := base_bivector_commutes r ry
+/-- `rotation(B)` — the coded exponential: truncated series of the scaled argument, squared back — commutes with whatever `B`
+    commutes with … -/
+theorem rotation_commutes (B Y : A) (h : Commute B Y) (c : ℚ) (N m : Nat) : Commute ((SeriesP.expTrunc N (c • B)) ^ m) Y :=
+  exp_commutes B Y h c N m
+/-- … in particular with `eo` and `einf` once it commutes with `ep`, `en` … -/
+theorem commutes_with_eo_einf (R : A) (h1 : Commute R ep) (h2 : Commute R en) : Commute R (eo ep en) ∧ Commute R (einf ep en) :=
+  commute_null_basis R h1 h2
+/-- … and a unit versor fixes what it commutes with: `R eo ~R = eo`, `R einf ~R = einf` -/
+theorem unit_versor_fixes (R Rrev Y : A) (h : Commute R Y) (hu : R * Rrev = 1) : R * Y * Rrev = Y := versor_fixes R Rrev Y h hu
+/-- a unit versor is an isometry (it preserves `uv + vu = 2 u·v`) -/
+theorem unit_versor_isometry (R Rrev u v : A) (hu : Rrev * R = 1) :
+    (R * u * Rrev) * (R * v * Rrev) + (R * v * Rrev) * (R * u * Rrev) = R * (u * v + v * u) * Rrev := versor_isometry R Rrev u v hu
+
+/-! ## transversion -/
+
+/-- `transversion(a) = ep T ep` acts as inversion – translation – inversion -/
+theorem transversion_is_inversion_translation_inversion (T Trev X : A) :
+    (ep * T * ep) * X * (ep * Trev * ep) = ep * (T * (ep * X * ep) * Trev) * ep := transversion_is_conjugation T Trev X
+theorem transversion_is_unit (T Trev : A) (hep : ep * ep = 1) (hT : T * Trev = 1) : (ep * T * ep) * (ep * Trev * ep) = 1 :=
+  transversion_unit T Trev hep hT
+
+/-! ## round from centre and radius -/
+
+/-- the dual sphere `σ = up(c) − ½r² einf` squares to `r²` (`ρ = r²/2`) … -/
+theorem round_radius (r : Rel x ep en qx) (ρ : ℚ) : dualSphere x ep en qx ρ * dualSphere x ep en qx ρ = (2 * ρ) • (1 : A) := dualSphere_sq r ρ
+/-- … has `σ·einf = −1` (the normalisation in `Round.radius`) … -/
+theorem round_normalisation (r : Rel x ep en qx) (ρ : ℚ) :
+    (1/2 : ℚ) • (dualSphere x ep en qx ρ * einf ep en + einf ep en * dualSphere x ep en qx ρ) = -1 := dualSphere_dot_einf r ρ
+/-- … and `mv einf mv` is a multiple of the centre's null vector, also through the duality `mv = λ σ J` -/
+theorem round_centre (r : Rel x ep en qx) (ρ lam ε j : ℚ) (J : A) (hε : ε * ε = 1)
+    (hJs : J * dualSphere x ep en qx ρ = ε • (dualSphere x ep en qx ρ * J)) (hJe : J * einf ep en = ε • (einf ep en * J))
+    (hJ : J * J = j • (1 : A)) :
+    (lam • (dualSphere x ep en qx ρ * J)) * einf ep en * (lam • (dualSphere x ep en qx ρ * J)) = (-2 * lam * lam * j) • up x ep en qx :=
+  Conf.round_center r ρ lam ε j J hε hJs hJe hJ
+/-- a point is on the round iff its squared distance to the centre is `r²` -/
+theorem round_contains_iff_distance {y : A} {qy b' : ℚ} (r : Rel x ep en qx) (ry : Rel y ep en qy)
+    (hxy : x * y + y * x = (2 * b') • (1 : A)) (ρ : ℚ) :
+    (1/2 : ℚ) • (up y ep en qy * dualSphere x ep en qx ρ + dualSphere x ep en qx ρ * up y ep en qy)
+      = (-(1/2 : ℚ) * ((qx + qy - 2 * b') - 2 * ρ)) • (1 : A) := point_on_round r ry hxy ρ
+
+end C14
+
+/-! ## rounds and flats through points (canonical model: any commutative ring, any dimension) -/
+namespace C14
+variable {R : Type} [CommRing R] (d : Nat)
+
+/-- `round(p1..pk)` / `flat(p1..pk)` = `reduce(op, points [+ einf])`, normalised: its outer product with every defining
+    vector (for flats also `einf`, which is in the list) vanishes -/
+theorem object_contains_defining_points (c : R) (p : CMV d R) (ps : List (CMV d R)) (hp : IsHom d 1 p) (hps : ∀ v ∈ ps, IsHom d 1 v)
+    (w : CMV d R) (hw : w = p ∨ w ∈ ps) : wedge d (c • wedgeList d p ps) w = 0 := wedgeList_contains_smul d c p ps hp hps w hw
+/-- it is a blade of grade `k` (number of vectors wedged): `k` for rounds, `k + 1` for flats (the points and `einf`) -/
+theorem object_grade (p : CMV d R) (ps : List (CMV d R)) (hp : IsHom d 1 p) (hps : ∀ v ∈ ps, IsHom d 1 v) :
+    IsHom d (ps.length + 1) (wedgeList d p ps) := wedgeList_grade d p ps hp hps
 
 end C14
